@@ -157,12 +157,12 @@ theorem BInv.set {n : Nat} {x' : Nat → Rat} {m m' : Mat} (h : BInv n x' m m') 
     BInv n x' m (m'.set a b v) := by
   constructor
   · intro i j hij
-    simp only [Mat.set]
+    simp only [Mat.set_apply]
     split
     · rename_i hc; obtain ⟨rfl, rfl⟩ := hc; exact hv
     · exact h.1 i j hij
   · intro i
-    simp only [Mat.set]
+    simp only [Mat.set_apply]
     rw [if_neg (by omega), if_neg (by omega)]
     exact h.2 i
 
